@@ -6,6 +6,7 @@ import (
 	"fmt"
 	"time"
 
+	"go.flow.arcalot.io/pluginsdk/mcrt"
 	"go.flow.arcalot.io/pluginsdk/schema"
 	"verif/engine/lib"
 	"verif/engine/ux"
@@ -198,9 +199,10 @@ func objectInputs(g objGen) []any {
 }
 
 type checker struct {
-	res  *ux.Result
-	spec *ukit.Spec
-	only *replay
+	res    *ux.Result
+	spec   *ukit.Spec
+	only   *replay
+	orders bool // explore map iteration orders (set while the constructor-built instance runs)
 }
 
 func (c *checker) fail(sig, detail, path string, i int, v any) {
@@ -211,9 +213,29 @@ func (c *checker) guard(path string, i int, v any, f func()) {
 	if c.only != nil && (c.only.Path != path || c.only.Idx != i) {
 		return
 	}
-	pan, val, stack := ukit.Call(f)
-	if pan {
-		c.fail(fmt.Sprintf("panic in %s: %s", lib.PanicSite(stack), lib.PanicClass(fmt.Sprint(val))), fmt.Sprintf("%s(%s) panicked: %v", path, ukit.Show(v), val), path, i, v)
+	// Unserialize on the constructor-built instance and its judgement run under the sorted iteration order and under
+	// every single deviating order of every map the operation ranges over (map-order seam; schema/ is built with the
+	// maporder rewrite for this check): presence rules, defaults and dispatch must come out the same whichever
+	// property is visited first. The other operations run under the sorted order.
+	if !(path == "Unserialize" && c.orders) {
+		// sorted order (what the seam yields outside an exploration)
+		pan, val, stack := ukit.Call(f)
+		if pan {
+			c.fail(fmt.Sprintf("panic in %s: %s", lib.PanicSite(stack), lib.PanicClass(fmt.Sprint(val))), fmt.Sprintf("%s(%s) panicked: %v", path, ukit.Show(v), val), path, i, v)
+		}
+		return
+	}
+	e := &mcrt.Explorer{MaxPreempt: 0, MaxDelay: -1, MaxDeviate: 1, MaxSteps: 1 << 20, Body: f, Check: func(r *mcrt.Result) bool {
+		c.res.Transitions++
+		if r.Status == mcrt.StPanic {
+			c.fail(fmt.Sprintf("panic in %s: %s", lib.PanicSite(r.PanicStack), lib.PanicClass(r.PanicValue)), fmt.Sprintf("%s(%s) panicked: %v", path, ukit.Show(v), r.PanicValue), path, i, v)
+		}
+		return true
+	}}
+	e.Deadline = ux.BatchDeadline()
+	e.All()
+	if e.Stats.Capped {
+		c.res.Capped = true
 	}
 }
 
@@ -320,8 +342,8 @@ func main() {
 		Batches: func(tier string) []any {
 			n := len(objects(tier))
 			var out []any
-			for lo := 0; lo < n; lo += 500 {
-				hi := lo + 500
+			for lo := 0; lo < n; lo += 100 {
+				hi := lo + 100
 				if hi > n {
 					hi = n
 				}
@@ -347,9 +369,11 @@ func main() {
 						}
 					})
 					c := &checker{res: &res, spec: spec}
+					c.orders = true
 					c.run(sch, ukit.RawValues(spec), "one-of")
 					res.Nontrivial++
 					if l := loaded(spec); l != nil {
+						c.orders = false
 						c.run(l, ukit.RawValues(spec), "one-of loaded from its description")
 					}
 				}
@@ -375,13 +399,15 @@ func main() {
 				if g.Struct != "" {
 					what = "struct-mapped object"
 				}
+				c.orders = true
 				c.run(sch, objectInputs(g), what)
 				res.Nontrivial++
 				if l := loaded(spec); l != nil {
+					c.orders = false
 					c.run(l, objectInputs(g), "object loaded from its description")
 				}
 			}
-			if b.Lo%5000 == 0 {
+			if b.Lo%5000 == 0 && b.Kind != "oneof" {
 				g := objs[(b.Lo+b.Hi)/2]
 				res.Samples = append(res.Samples, map[string]any{"object": g.spec().String(), "inputs": len(objectInputs(g))})
 			}
@@ -413,19 +439,23 @@ func main() {
 						g.Types = append(g.Types, 2)
 					}
 				}
+				c.orders = true
 				c.run(sch, objectInputs(g), "object")
 				if l := loaded(r.Spec); l != nil {
+					c.orders = false
 					c.run(l, objectInputs(g), "object loaded from its description")
 				}
 			} else {
+				c.orders = true
 				c.run(sch, ukit.RawValues(r.Spec), "one-of")
 				if l := loaded(r.Spec); l != nil {
+					c.orders = false
 					c.run(l, ukit.RawValues(r.Spec), "one-of loaded from its description")
 				}
 			}
 			return res.Findings
 		},
-		Rule: "objects with 1-3 properties over property types {string[1..], int[0..5], nested object}: ALL combinations of the per-property flags required / required_if / required_if_not / conflicts (each over every subset of the other properties) / default / disabled for n=1 (3 types) and n=2 (string,int; map-based and struct-mapped with pointer fields), <=3 set flags for the other n=2 type pairs and value-field structs, <=2 (thorough 3) set flags for n=3; x every subset of supplied properties x {valid, type-invalid} value per supplied property in two map representations x {undeclared key, non-string key, nil, list, lone values}; every map-based object and one-of twice: built by the constructors, and loaded from its own description through the meta-schema without constructors (first use of all lazily computed state); Unserialize is compared with the reference presence interpreter (verdict and value incl. defaults), Validate/Serialize with the reference on every accepted native value and its one-key-removed / undeclared-key-added neighbours. One-ofs: string and int keys x inlined / not x map-based, struct-mapped and referenced members x discriminator in every representation / unknown / missing / wrong type x member-valid and member-invalid payloads; non-trivial = distinct object / one-of schemas",
+		Rule: "Unserialize on the constructor-built instance runs under the sorted and under every single deviating iteration order of every map it ranges over (map-order seam; the other operations under the sorted order); objects with 1-3 properties over property types {string[1..], int[0..5], nested object}: ALL combinations of the per-property flags required / required_if / required_if_not / conflicts (each over every subset of the other properties) / default / disabled for n=1 (3 types) and n=2 (string,int; map-based and struct-mapped with pointer fields), <=3 set flags for the other n=2 type pairs and value-field structs, <=2 (thorough 3) set flags for n=3; x every subset of supplied properties x {valid, type-invalid} value per supplied property in two map representations x {undeclared key, non-string key, nil, list, lone values}; every map-based object and one-of twice: built by the constructors, and loaded from its own description through the meta-schema without constructors (first use of all lazily computed state); Unserialize is compared with the reference presence interpreter (verdict and value incl. defaults), Validate/Serialize with the reference on every accepted native value and its one-key-removed / undeclared-key-added neighbours. One-ofs: string and int keys x inlined / not x map-based, struct-mapped and referenced members x discriminator in every representation / unknown / missing / wrong type x member-valid and member-invalid payloads; non-trivial = distinct object / one-of schemas",
 		Assumptions: []string{
 			"defaults are applied first and never override a supplied value; then presence rules; a disabled property that is supplied or defaulted is 'in use'",
 			"Unknown (skipped): disabled properties in native values, struct-mapped native values, named string key types",
